@@ -249,7 +249,7 @@ def validate(ctx, spec, trace, stats, prop, name, parallel=8, cfg=None, max_viol
     rejections = []
 
     t1 = 150 if ctx.quick else 900      # per chunk
-    t2 = 45 if ctx.quick else 240       # per single execution (fallback)
+    t2 = 45 if ctx.quick else 100       # per single execution (fallback)
 
     def one_file(fn, tag, timeout):
         """validate one file (possibly several executions); returns (rejections, timed_out)"""
@@ -290,19 +290,30 @@ def validate(ctx, spec, trace, stats, prop, name, parallel=8, cfg=None, max_viol
             cur = nf
         return rej, False
 
-    def job(i_part):
-        i, (fn, first) = i_part
-        rej, to = one_file(fn, f'p{i}', t1)
+    def budget(fn):
+        """time allowed for one validation run: generous for a linear search (a few thousand lines per second), so that a
+        search that blows up is cut short early instead of eating the whole per-chunk allowance"""
+        nl = sum(1 for _ in open(fn))
+        return max(30, min(t1, nl // 150))
+
+    def rec_file(fn, tag):
+        """validate a file; when the search is too expensive bisect it (down to single executions, which are skipped)"""
+        n = sum(1 for ln in open(fn) if '"ev":"reset"' in ln)
+        rej, to = one_file(fn, tag, t2 if n <= 1 else budget(fn))
         if not to:
             return rej, 0
-        # the chunk was too expensive as a whole: validate its executions one by one, skipping those that still time out
+        if n <= 1:
+            return [], 1
         rej, skipped = [], 0
-        n = sum(1 for ln in open(fn) if '"ev":"reset"' in ln)
-        for j, (sf, _) in enumerate(split_trace(fn, n)):
-            r, to = one_file(sf, f'p{i}x{j}', t2)
+        for j, (sf, _) in enumerate(split_trace(fn, 2)):
+            r, sk = rec_file(sf, f'{tag}x{j}')
             rej += r
-            skipped += 1 if to else 0
+            skipped += sk
         return rej, skipped
+
+    def job(i_part):
+        i, (fn, first) = i_part
+        return rec_file(fn, f'p{i}')
 
     ctx.tv_states = getattr(ctx, 'tv_states', 0)
     with ThreadPoolExecutor(max_workers=max(1, min(parallel, len(parts)))) as ex:
